@@ -108,7 +108,6 @@ type server struct {
 	unexpected   []string
 	releaseCalls int
 	releaseFails int
-	live         bool // live (concurrent) mode: no faults, no PRNG use from controller goroutines
 }
 
 func newServer() *server {
@@ -130,9 +129,13 @@ func hasFin(p *v3.IPPool, f string) bool {
 }
 
 // react implements the API server for the verbs the controller uses.
-func (s *server) react(a k8stesting.Action) (bool, runtime.Object, error) {
+func (s *server) react(a k8stesting.Action, live bool, closed *atomic.Bool) (bool, runtime.Object, error) {
 	s.mu.Lock()
 	defer s.mu.Unlock()
+	if closed != nil && closed.Load() {
+		// a straggling pass of a stopped live controller: the "connection" is gone
+		return true, nil, apierrors.NewServerTimeout(poolGR, a.GetVerb(), 1)
+	}
 	switch act := a.(type) {
 	case k8stesting.UpdateAction:
 		obj, ok := act.GetObject().(*v3.IPPool)
@@ -145,7 +148,7 @@ func (s *server) react(a k8stesting.Action) (bool, runtime.Object, error) {
 			s.unexpected = append(s.unexpected, "subresource "+sub)
 			return true, nil, apierrors.NewBadRequest("verif: unexpected subresource")
 		}
-		return s.write(obj, sub == "status")
+		return s.write(obj, sub == "status", live)
 	case k8stesting.GetAction:
 		if p, ok := s.pools[act.GetName()]; ok {
 			return true, p.DeepCopy(), nil
@@ -156,13 +159,13 @@ func (s *server) react(a k8stesting.Action) (bool, runtime.Object, error) {
 	return true, nil, apierrors.NewMethodNotSupported(poolGR, a.GetVerb())
 }
 
-func (s *server) write(obj *v3.IPPool, status bool) (bool, runtime.Object, error) {
+func (s *server) write(obj *v3.IPPool, status bool, live bool) (bool, runtime.Object, error) {
 	rec := writeRec{Verb: "update", Name: obj.Name, SentRV: obj.ResourceVersion}
 	if status {
 		rec.Verb = "status"
 	}
 	fault := ""
-	if !s.live && s.pWriteFault > 0 && s.draw() < s.pWriteFault {
+	if !live && s.pWriteFault > 0 && s.draw() < s.pWriteFault {
 		fault = []string{"conflict", "timeout", "lost-reply"}[s.drawN(3)]
 	}
 	rec.Fault = fault
@@ -344,15 +347,20 @@ func (s *server) deleteBlock(n string) {
 
 type fakeIPAM struct {
 	ipam.Interface
-	s *server
+	s      *server
+	live   bool         // live (concurrent) controller: no faults, no PRNG use from its goroutines
+	closed *atomic.Bool // set once the live controller has been stopped
 }
 
 func (f *fakeIPAM) ReleasePoolAffinities(ctx context.Context, pool cnet.IPNet) error {
 	s := f.s
 	s.mu.Lock()
 	defer s.mu.Unlock()
+	if f.closed != nil && f.closed.Load() {
+		return fmt.Errorf("verif: controller stopped")
+	}
 	s.releaseCalls++
-	if !s.live && s.pRelFault > 0 && s.draw() < s.pRelFault {
+	if !f.live && s.pRelFault > 0 && s.draw() < s.pRelFault {
 		s.releaseFails++
 		return fmt.Errorf("verif: injected ReleasePoolAffinities failure")
 	}
@@ -520,16 +528,16 @@ func listViews(m map[string]pview) []pview {
 // One case = one history.
 
 type world struct {
-	c       *harness.Case
-	s       *server
-	pools   *fakeInformer
-	blocks  *fakeInformer
-	ctrl    *ippool.IPPoolController
-	ops     []string
-	guarded map[string]bool // pools that were allocatable (with our finalizer) when their deletion was requested
-	names   []int
-	v4base  int
-	stale   int // consecutive stale reconciles
+	c                   *harness.Case
+	s                   *server
+	pools               *fakeInformer
+	blocks              *fakeInformer
+	ctrl                *ippool.IPPoolController
+	ops                 []string
+	guarded             map[string]bool // pools that were allocatable (with our finalizer) when their deletion was requested
+	names               []int
+	v4base              int
+	stale               int // consecutive stale reconciles
 	sawOverlapReconcile bool
 	serverOverlapKnown  map[string]bool
 }
@@ -674,6 +682,9 @@ func (w *world) userStep() {
 		}
 		n := names[r.Intn(len(names))]
 		cur := w.s.snapshotPools()[n]
+		if cur == nil { // removed concurrently by a live controller
+			return
+		}
 		v := view(cur)
 		if v.Deleting {
 			return
@@ -688,7 +699,7 @@ func (w *world) userStep() {
 	case x < 66:
 		for _, n := range names {
 			cur := w.s.snapshotPools()[n]
-			if hasFin(cur, foreignFinalizer) && r.Intn(2) == 0 {
+			if cur != nil && hasFin(cur, foreignFinalizer) && r.Intn(2) == 0 {
 				w.s.mutatePool(n, func(p *v3.IPPool) {
 					out := p.Finalizers[:0:0]
 					for _, f := range p.Finalizers {
@@ -707,7 +718,11 @@ func (w *world) userStep() {
 		// not disabled, no Allocatable=False condition); mostly from Allocatable=True pools.
 		cands := []pview{}
 		for _, n := range names {
-			v := view(w.s.snapshotPools()[n])
+			cur := w.s.snapshotPools()[n]
+			if cur == nil {
+				continue
+			}
+			v := view(cur)
 			if v.Deleting || v.Disabled || strings.HasPrefix(v.Cond, "False") || v.net == nil {
 				continue
 			}
@@ -897,6 +912,73 @@ func (w *world) reconcile(forceFresh, noFaults bool) {
 	}
 }
 
+// liveRun drives the controller's real Run loop.  Wall-clock sleeps here only pace the feeding of
+// notifications; nothing is judged on timing.
+func (w *world) liveRun(steps int) {
+	s := w.s
+	s.mu.Lock()
+	s.pWriteFault, s.pRelFault = 0, 0
+	s.mu.Unlock()
+	// A separate controller instance with its own client: once stopped, whatever pass is still in
+	// flight on its worker goroutine is cut off from the server, so it cannot interleave with the
+	// single-threaded judged steps that follow.
+	closed := &atomic.Bool{}
+	ctx, cancel := context.WithCancel(context.Background())
+	defer cancel()
+	lc := ippool.NewController(ctx, newClientset(s, true, closed), w.pools, w.blocks, &fakeIPAM{s: s, live: true, closed: closed})
+	stop := make(chan struct{})
+	done := make(chan struct{})
+	go func() {
+		defer close(done)
+		lc.Run(stop)
+	}()
+	settle := func() {
+		stable := 0
+		for i := 0; i < 200 && stable < 3; i++ {
+			s.mu.Lock()
+			before := s.rv
+			s.mu.Unlock()
+			w.syncPools(true)
+			w.syncBlocks(true)
+			time.Sleep(2 * time.Millisecond)
+			s.mu.Lock()
+			after := s.rv
+			s.mu.Unlock()
+			if after == before {
+				stable++
+			} else {
+				stable = 0
+			}
+		}
+	}
+	for i := 0; i < steps; i++ {
+		w.userStep()
+		if w.c.R.Intn(3) != 0 {
+			w.syncPools(true)
+			w.syncBlocks(true)
+		}
+		if w.c.R.Intn(4) == 0 {
+			settle()
+		}
+	}
+	settle()
+	closed.Store(true)
+	close(stop)
+	select {
+	case <-done:
+	case <-time.After(20 * time.Second):
+		w.c.Inconclusive("live Run() did not stop")
+	}
+	s.mu.Lock()
+	n := len(s.writes)
+	s.writes = nil
+	s.mu.Unlock()
+	w.c.Count("live_runs", 1)
+	w.c.Count("live_controller_writes", int64(n))
+	w.logf("live-run steps=%d controller_writes=%d", steps, n)
+	w.stale = 2 // force the next judged reconcile to start from fresh caches
+}
+
 func sameRVs(a, b map[string]*v3.IPPool) bool {
 	if len(a) != len(b) {
 		return false
@@ -1068,23 +1150,12 @@ func (w *world) judge(pre, post map[string]pview, blks []*net.IPNet, err error, 
 
 func normNet(n *net.IPNet) *net.IPNet { return n }
 
-// One fake clientset per worker process (building its codec factory is expensive); its only reactor
-// forwards to the API server of the case that is currently running.
-var (
-	curServer  atomic.Pointer[server]
-	clientOnce sync.Once
-	clientset  *fake.Clientset
-)
-
-func sharedClientset() *fake.Clientset {
-	clientOnce.Do(func() {
-		clientset = fake.NewSimpleClientset()
-		clientset.PrependReactor("*", "ippools", func(a k8stesting.Action) (bool, runtime.Object, error) {
-			return curServer.Load().react(a)
-		})
+func newClientset(s *server, live bool, closed *atomic.Bool) *fake.Clientset {
+	cli := fake.NewSimpleClientset()
+	cli.PrependReactor("*", "ippools", func(a k8stesting.Action) (bool, runtime.Object, error) {
+		return s.react(a, live, closed)
 	})
-	clientset.ClearActions()
-	return clientset
+	return cli
 }
 
 func run(c *harness.Case) {
@@ -1095,8 +1166,7 @@ func run(c *harness.Case) {
 	w := &world{c: c, s: s, pools: newFakeInformer(), blocks: newFakeInformer(), guarded: map[string]bool{},
 		v4base: 16 + r.Intn(200), serverOverlapKnown: map[string]bool{}}
 	w.names = r.Perm(40)
-	curServer.Store(s)
-	cli := sharedClientset()
+	cli := newClientset(s, false, nil)
 	ctx, cancel := context.WithCancel(context.Background())
 	defer cancel()
 	ctrl := ippool.NewController(ctx, cli, w.pools, w.blocks, &fakeIPAM{s: s})
@@ -1108,6 +1178,13 @@ func run(c *harness.Case) {
 	w.ctrl = ic
 
 	steps := 30 + r.Intn(c.Pick(40, 70))
+	if c.Index%12 == 11 {
+		// Live sub-run (race detection and crash-freedom only, no verdict while it runs): the real
+		// Run() loop with its workqueue and worker goroutine, fed by informer-style notifications,
+		// concurrently with user operations.  Afterwards the usual judged passes follow.
+		w.liveRun(steps / 2)
+		steps = 6
+	}
 	for i := 0; i < steps && !c.Failed(); i++ {
 		if r.Intn(100) < 36 {
 			w.reconcile(false, false)
@@ -1174,6 +1251,7 @@ func main() {
 		Floors: map[string]int64{
 			"reconciles": 2000, "controller_writes": 2000, "overlap_pairs_judged": 2000, "pools_became_allocatable": 300,
 			"terminating_mask_checks": 50, "finalizer_hold_checks": 30, "displacement_candidates": 300, "write_faults_injected": 100,
+			"live_runs": 10, "live_controller_writes": 50,
 		},
 	})
 }
